@@ -107,6 +107,8 @@ def run(ctx, w):
     c07.pens(ctx, w, S, R)
     c07.nocontent(ctx, w, S, R, None)
     fresh_screen_pen(ctx, w, S, R)
+    from rules import prims
+    prims.ctor_semantics(ctx, w, S, "G10")
     # parameters handed to the decoder are exactly those of the current sequence
     # (no stale sub-parameters): the memoryless-reset rules of C03
     c03.run_t7(ctx, w, tables.parser_tables(w))
